@@ -445,6 +445,32 @@ func main() {
 			}
 		}
 
+		// (l) long haystacks (past any short-string cut-over): every haystack of
+		// 1..2 runes (3 thorough) over the orbit alphabet behind, in front of and
+		// between ASCII paddings of 60..70 bytes, against every needle of 1..2
+		// runes.
+		shl := sh()
+		longS := operands(foldOrbit16, 1, runlib.Pick(c, 2, 3))
+		longSub := operands(foldOrbit16, 1, 2)
+		for _, padLen := range []int{60, 63, 64, 65, 70} {
+			pad := strings.Repeat("0123456789 ", 7)[:padLen]
+			for i := range longS {
+				if !shl.Mine() {
+					continue
+				}
+
+				for _, hay := range []string{pad + longS[i].str, longS[i].str + pad, pad + longS[i].str + pad} {
+					h := operandOf(hay)
+					for j := range longSub {
+						c.Family("fold-long-haystack")
+						if oneFold(c, &h, &longSub[j]) {
+							c.NontrivialInjective()
+						}
+					}
+				}
+			}
+		}
+
 		// (d) SplitTrimmed.
 		maxLen := runlib.Pick(c, 6, 7)
 		shd := sh()
